@@ -1311,7 +1311,7 @@ func (o *RunObs) coq() string {
 	if o.HasEmits {
 		em = lib.CoqSome(coqMsgs(o.Emits))
 	}
-	return lib.CoqApp("ORun", md, lib.CoqBool(!o.Exported), lib.CoqList(ins), lib.CoqList(rs), em, out)
+	return lib.CoqApp("ORun", md, lib.CoqBool(!o.Exported), lib.CoqList(ins), lib.CoqList(rs), em, out, lib.CoqBool(o.Mutated))
 }
 
 func (c *Case) coq(runs []string) string {
